@@ -32,6 +32,7 @@ REQUIRED_COUNTERS = ['chk:getitem', 'chk:setitem', 'chk:chain', 'chk:other-forms
 
 def row_keys(N):
     ks = list(range(N)) + [-i for i in range(1, N + 1)]
+    ks += [np.int64(0), np.int64(N - 1), np.int32(-1), np.intp(0)]          # NumPy integers as event positions (argmax, flatnonzero ...)
     ks += [slice(None), slice(0, N), slice(1, None), slice(None, -1), slice(None, None, 2), slice(None, None, -1),
            slice(N, None, -2), slice(N, 0), slice(1, 1), slice(-2, None), slice(0, N, 3)]
     ks += [[0], [N - 1, 0], [0, 0, N - 1], [], list(range(N))[::-1], [-1, 0]]
